@@ -161,6 +161,14 @@ Definition parse_ipv6 (s0 : list Z) : option (list Z) :=
       end
   end.
 
+(* net.ParseIP: netip.ParseAddr, zone required empty, As16 (an IPv4 address becomes ::ffff:a.b.c.d) *)
+Definition parse_ip16 (s : list Z) : option (list Z) :=
+  match addr_kind_of s with
+  | AKv4 => option_map (fun q => repeat 0 10 ++ [255; 255] ++ q) (parse_ipv4 s)
+  | AKv6 => parse_ipv6 s
+  | AKbad => None
+  end.
+
 (* ------------------------------------------------------------------ IPNetwork.UnmarshalJSON, all texts *)
 
 Inductive net_full := NFErr | NF4 (ip : list Z) (ones : Z) | NF6 (ip : list Z) (ones : Z).
